@@ -38,7 +38,7 @@ def frag(name, cut, tail, extra_rw=()):
 
 UNIT = Unit(
     name="U-DEPREC",
-    properties=["C15", "C16"],
+    properties=["C15", "C16", "C14"],
     # the self-import clause (type checking is never entered by a package that imports itself: a 1-cycle) is C16's; the rest is C15's
     clause_scope={"C16": {"only": ["not_self_import(", "pending("]}, "C15": {"except": ["not_self_import(", "pending("]}},
     rules=["attrs", "fmtmsg", "msg_to_string"],
